@@ -54,15 +54,27 @@ class VerifError(Exception):
     pass
 
 
-def make_impl(name, impl_id, nargs, wants_caller):
-    """A method function with an explicit positional signature (txdbus inspects the last name)."""
-    params = ['self'] + ['a%d' % i for i in range(nargs)] + (['dbusCaller=None'] if wants_caller else [])
-    src = 'def %s(%s):\n    return _enter(%r, [%s], %s)\n' % (
-        name, ', '.join(params), impl_id, ', '.join('a%d' % i for i in range(nargs)),
-        'dbusCaller' if wants_caller else '"<not asked>"')
+def make_impl(name, impl_id, nargs, wants_caller, spare=None):
+    """A method function with an explicit positional signature (txdbus inspects the last name).  A third of the
+    implementations also have a defaulted Python parameter that no DBus argument fills, in front of dbusCaller: it
+    must keep its default (the caller's name is not one of the decoded arguments)."""
+    if spare is None:
+        spare = (len(str(impl_id)) + nargs) % 3 == 0
+    params = ['self'] + ['a%d' % i for i in range(nargs)] + (['spare_="<default>"'] if spare else []) + (
+        ['dbusCaller=None'] if wants_caller else [])
+    args = '[%s]' % ', '.join('a%d' % i for i in range(nargs))
+    if spare:
+        args += ' + ([] if spare_ == "<default>" else ["<spare parameter filled>", spare_])'
+    src = 'def %s(%s):\n    return _enter(%r, %s, %s)\n' % (
+        name, ', '.join(params), impl_id, args, 'dbusCaller' if wants_caller else '"<not asked>"')
     ns = {'_enter': enter}
     exec(src, ns)
+    if spare:
+        SPARE['made'] += 1
     return ns[name]
+
+
+SPARE = {'made': 0}
 
 
 CURRENT = {'plan': {}, 'used': None, 'holder': None}
@@ -623,6 +635,7 @@ def run(ctx):
         ctx.count('classes')
         if ctx.stop_early() or (i % 16 == 0 and ctx.out_of_time()):
             break
+    ctx.note('implementations_with_an_unfilled_defaulted_parameter', SPARE['made'])
     r = random.Random(1)
     d = Decl(r, 'sample')
     ctx.sample({'interfaces': [(n_, ms) for n_, ms in d.ifaces], 'binding_styles': d.style})
